@@ -7,6 +7,9 @@ mod c15;
 mod dump;
 mod progen;
 mod godump;
+mod c17;
+mod c19;
+mod goscope;
 mod probe;
 mod rng;
 mod sexp;
@@ -26,6 +29,8 @@ fn main() {
         "c12" => c12::main(&args),
         "c15" => c15::main(&args),
         "c11" => c11::main(&args),
+        "c17" => c17::main(&args),
+        "c19" => c19::main(&args),
         "probe" => probe::main(&args),
         other => {
             eprintln!("unknown subcommand {}", other);
